@@ -111,7 +111,9 @@ def root_catalogue(level, suffix=""):
 
 
 ARGS_PLAIN = {
+    "XS": [var("T"), INT, STR],
     "S": [var("T"), var("U"), INT],
+    "L2": [var("T"), var("U"), INT, STR, List_(var("T")), BOOL, List_(var("U"))],
     "M": [var("T"), var("U"), INT, STR, List_(var("T"))],
     "L": [var("T"), var("U"), INT, STR, List_(var("T")), BOOL, List_(INT), List_(var("U")), Opt_(var("T")), var("B"),
           var("C")],
@@ -124,6 +126,8 @@ def arg_options(bparams, level):
     """None (bare base) and every tuple of argument expressions of the level's alphabet"""
     if not bparams:
         return [None]
+    if level == "L" and len(bparams) > 1:
+        level = "L2"
     doms = []
     for p in bparams:
         kind = rg.TYPEVARS[p]["kind"]
@@ -195,6 +199,7 @@ LV = {
     "Sg": {"args": "S", "generic": "M", "own": "S"},
     "M": {"args": "M", "generic": "L", "own": "M"},
     "Mm": {"args": "M", "generic": "M", "own": "S"},
+    "Mq": {"args": "M", "generic": "M", "own": "M"},
     "L": {"args": "L", "generic": "L", "own": "L"},
 }
 
@@ -215,10 +220,10 @@ def _extend(spec, levels):
         yield from _extend({"classes": [*spec["classes"], c]}, levels[1:])
 
 
-def v_shapes(root_level, level, same_names):
-    """two roots and a leaf that inherits both"""
-    roots_a = root_catalogue(root_level)
-    roots_b = root_catalogue("S", suffix="" if same_names else "2")
+def v_shapes(n_a, n_b, level, generic_level, same_names):
+    """two roots (the first n_a / n_b entries of the small catalogue) and a leaf that inherits both"""
+    roots_a = root_catalogue("S")[:n_a]
+    roots_b = root_catalogue("S", suffix="" if same_names else "2")[:n_b]
     for ga, fa in roots_a:
         for gb, fb in roots_b:
             if not ga or not gb:
@@ -229,8 +234,11 @@ def v_shapes(root_level, level, same_names):
                     av = []
                     for a in [*(args_a or ()), *(args_b or ())]:
                         rg.vars_of(rg.freeze(a), av)
-                    for generic, _ in generic_variants(av, "M"):
+                    for generic, _ in generic_variants(av, generic_level):
                         yield {"classes": [*base["classes"], mk_class("A2", generic, [("A0", args_a), ("A1", args_b)], [])]}
+
+
+DIAMOND_ARGS2 = [[var("T"), var("U")], [var("U"), var("T")], [INT, var("T")], [INT, STR]]
 
 
 def diamonds(root_level, mid_level, top_level):
@@ -241,6 +249,10 @@ def diamonds(root_level, mid_level, top_level):
         s0 = {"classes": [mk_class("A0", generic, [], fields)]}
         mids1 = list(child_classes(s0, "A0", "A1", LV[mid_level], new_name="z1"))
         mids2 = list(child_classes(s0, "A0", "A2", LV[mid_level], new_name="z2"))
+        if len(generic) == 2:      # the arms over a two-parameter root: same, swapped, partial, concrete, bare only
+            keep = [None, *[rg.thaw(a) for a in DIAMOND_ARGS2]]
+            mids1 = [m for m in mids1 if m["bases"][0]["args"] in keep]
+            mids2 = [m for m in mids2 if m["bases"][0]["args"] in keep]
         for m1 in mids1:
             for m2 in mids2:
                 s2 = {"classes": [s0["classes"][0], m1, m2]}
@@ -334,11 +346,11 @@ def enumerate_specs(tier):  # noqa: C901
     if tier == "quick":
         for s in chains("M", []):
             yield "single", single, s
-        for s in chains("M", ["M"]):
+        for s in chains("M", ["Mq"]):
             yield "two_level", multi, s
-        for s in chains("S", ["Mm", "S"]):
+        for s in chains("S", ["Sg", "S"]):
             yield "three_level", multi, s
-        for s in v_shapes("S", "S", same_names=False):
+        for s in v_shapes(4, 2, "S", "S", same_names=False):
             yield "v_shape", multi, s
         for s in w_joins():
             yield "w_join", multi, s
@@ -355,11 +367,11 @@ def enumerate_specs(tier):  # noqa: C901
             yield "three_level", multi, s
         for s in chains("S", ["S", "S", "S"]):
             yield "four_level", ("dataclass",), s
-        for s in v_shapes("M", "S", same_names=False):
+        for s in v_shapes(6, 6, "S", "M", same_names=False):
             yield "v_shape", multi, s
-        for s in v_shapes("S", "S", same_names=True):
+        for s in v_shapes(4, 4, "S", "S", same_names=True):
             yield "v_shape_same_names", multi, s
-        for s in diamonds("S", "S", "S"):
+        for s in diamonds("S", "S", "XS"):
             yield "diamond", multi, s
         for s in w_joins():
             yield "w_join", multi, s
@@ -367,7 +379,7 @@ def enumerate_specs(tier):  # noqa: C901
             yield "variadic", ("dataclass", "attrs"), s
 
 
-QUICK_PAIRS = [(0, 1), (1, 0), (2, 3), (3, 2), (0, 0)]
+QUICK_PAIRS = [(0, 1), (3, 2), (1, 0)]
 
 
 def leaf_parametrisations(spec, leaf, tier, all_pairs=False):
